@@ -30,6 +30,7 @@ type vEnvT struct {
 	journal string
 	skip    map[int]bool // case indices the driver told us to skip (crashed before)
 	from    int          // first case index to run (resume after crash)
+	to      int          // if > 0: run only case indices < to
 	base    [2]int       // 127.base[0].base[1].x loopback block of this child
 	tmp     string
 	replay  string
@@ -64,6 +65,9 @@ var vEnv = func() *vEnvT {
 	if s := os.Getenv("VERIF_FROM"); s != "" {
 		e.from, _ = strconv.Atoi(s)
 	}
+	if s := os.Getenv("VERIF_TO"); s != "" {
+		e.to, _ = strconv.Atoi(s)
+	}
 	if s := os.Getenv("VERIF_NETBASE"); s != "" {
 		fmt.Sscanf(s, "%d.%d", &e.base[0], &e.base[1])
 	}
@@ -86,7 +90,7 @@ func (e *vEnvT) pick(q, t int) int {
 
 // mine tells whether global case index i belongs to this shard.
 func (e *vEnvT) mine(i int) bool {
-	return i%e.nshards == e.shard && i >= e.from && !e.skip[i]
+	return i%e.nshards == e.shard && i >= e.from && !e.skip[i] && (e.to <= 0 || i < e.to)
 }
 
 // addr returns the loopback address 127.a.b.x private to this child.
@@ -251,10 +255,17 @@ func (r *vResult) finish(t *testing.T) {
 var vJournalMu sync.Mutex
 var vJournalFile *os.File
 
+var vLastFlush time.Time
+
 func (r *vResult) begin(idx int, desc string, input interface{}) {
 	r.mu.Lock()
 	r.curCase = idx
 	r.mu.Unlock()
+	if time.Since(vLastFlush) > 2*time.Second {
+		// periodic flush: what was observed so far survives a crash of this child
+		vLastFlush = time.Now()
+		r.flush()
+	}
 	if vEnv.journal == "" {
 		return
 	}
